@@ -1,4 +1,5 @@
 mod ast;
+mod cli;
 mod decode;
 mod gen;
 mod graph;
